@@ -58,6 +58,9 @@ type ReadCfg struct {
 	ProbeIdle bool
 	// Bufio > 0: Reader.Source is a *bufio.Reader of that size over the transport.
 	Bufio int
+	// CopyValue: the Reader value is copied between top-level units and the
+	// copy used from then on (AppReader).
+	CopyValue bool
 	// ZeroBuf: the application now and then calls Read with an empty buffer.
 	ZeroBuf bool
 	// CopyDrain: units that are read to their end are drained with io.Copy
@@ -392,6 +395,14 @@ func appReader(r *eng.Run, p *Pipe, cfg ReadCfg, o *Outcome) {
 	}
 	for {
 		o.Calls++
+		if cfg.CopyValue && o.Calls%2 == 0 {
+			// Between two messages the application moves its Reader (stored
+			// by value in a struct that is copied, say): the copy goes on,
+			// the original is not used again.
+			cp := *rd
+			rd = &cp
+			r.Probe("reader_value_copied_between_messages")
+		}
 		h, err := rd.NextFrame()
 		if err != nil {
 			o.Err, o.ErrAt = err, "NextFrame"
@@ -523,27 +534,63 @@ func topLevel(recs []Rec) []Rec {
 	return out
 }
 
+// helperSrc is the connection as the helper applications hold it: the
+// transport itself, or - cfg.Bufio > 0 - behind the bufio.Reader (or
+// ReadWriter) a handshake left them with.
+func helperSrc(r *eng.Run, p *Pipe, cfg ReadCfg) (rw io.ReadWriter, pos func() int, flush func()) {
+	if cfg.Bufio == 0 {
+		return p, p.Consumed, func() {}
+	}
+	br := bufio.NewReaderSize(p, cfg.Bufio)
+	pos = func() int { return p.Consumed() - br.Buffered() }
+	r.Probe("read_helpers_over_bufio_reader")
+	if cfg.Bufio%2 == 1 {
+		bw := bufio.NewReadWriter(br, bufio.NewWriterSize(p, 64))
+		return bw, pos, func() { bw.Flush() }
+	}
+	return struct {
+		*bufio.Reader
+		io.Writer
+	}{br, p}, pos, func() {}
+}
+
 func appNextReader(r *eng.Run, p *Pipe, cfg ReadCfg, o *Outcome) {
+	src, pos, _ := helperSrc(r, p, cfg)
+	var in io.Reader = src
+	if br, ok := src.(struct {
+		*bufio.Reader
+		io.Writer
+	}); ok {
+		in = br.Reader // NextReader takes an io.Reader: the *bufio.Reader itself
+	}
 	for {
 		o.Calls++
-		h, rd, err := wsutil.NextReader(p, cfg.State())
+		h, rd, err := wsutil.NextReader(in, cfg.State())
 		if err != nil {
 			o.Err, o.ErrAt = err, "NextReader"
 			return
 		}
-		rec := &Rec{Kind: 'M', Op: byte(h.OpCode), Hdr: h, HasHdr: true, HdrAt: p.Consumed()}
+		rec := &Rec{Kind: 'M', Op: byte(h.OpCode), Hdr: h, HasHdr: true, HdrAt: pos()}
 		if h.OpCode.IsControl() {
 			rec.Kind = 'C'
 		}
 		if !readUnit(r, p, rd, nil, rec, o, false) {
 			return
 		}
-		rec.EndAt = p.Consumed()
+		rec.EndAt = pos()
 		o.Recs = append(o.Recs, *rec)
 	}
 }
 
-func appReadMessage(r *eng.Run, p *Pipe, cfg ReadCfg, o *Outcome) {
+func appReadMessage(r *eng.Run, pp *Pipe, cfg ReadCfg, o *Outcome) {
+	src, pos, _ := helperSrc(r, pp, cfg)
+	var p io.Reader = src
+	if br, ok := src.(struct {
+		*bufio.Reader
+		io.Writer
+	}); ok {
+		p = br.Reader
+	}
 	var msgs []wsutil.Message
 	sentinel := wsutil.Message{OpCode: ws.OpBinary, Payload: []byte("sentinel")}
 	for {
@@ -579,14 +626,16 @@ func appReadMessage(r *eng.Run, p *Pipe, cfg ReadCfg, o *Outcome) {
 			return
 		}
 		if len(o.Recs) > 0 {
-			o.Recs[len(o.Recs)-1].EndAt = p.Consumed()
+			o.Recs[len(o.Recs)-1].EndAt = pos()
 		}
 	}
 }
 
-func appReadData(r *eng.Run, p *Pipe, cfg ReadCfg, o *Outcome) {
+func appReadData(r *eng.Run, pp *Pipe, cfg ReadCfg, o *Outcome) {
+	p, pos, flush := helperSrc(r, pp, cfg)
 	for {
 		o.Calls++
+		flush()
 		var (
 			data []byte
 			op   ws.OpCode
@@ -622,10 +671,11 @@ func appReadData(r *eng.Run, p *Pipe, cfg ReadCfg, o *Outcome) {
 				// A failed call that still hands out bytes: keep them visible.
 				o.Open = &Rec{Kind: 'M', Op: byte(op), Data: append([]byte(nil), data...)}
 			}
+			flush()
 			o.Err, o.ErrAt = err, "ReadData"
 			return
 		}
-		o.Recs = append(o.Recs, Rec{Kind: 'M', Op: byte(op), Data: append([]byte(nil), data...), HdrAt: -1, EndAt: p.Consumed()})
+		o.Recs = append(o.Recs, Rec{Kind: 'M', Op: byte(op), Data: append([]byte(nil), data...), HdrAt: -1, EndAt: pos()})
 	}
 }
 
